@@ -616,6 +616,7 @@ inductive SeqOp
 inductive MapOp
   | setitem (k : Str) (a : Arg) | delitem (k : Str) | pop (k : Str) | popitem | clear
   | update (pos : Option Raw) (kw : List (Str × Raw)) | ior (r : Raw)
+  | updateArgs (kvs : List (Str × Arg))   -- update({k: v}) / update(k=v) / update([(k, v)]) / `|=` whose values may be Elements
   | setdefault (k : Str) (d : Raw) | get (k : Str)
   | set (r : Raw) (policy : Option (Option Policy)) | setDefault
   | contains (k : Str) | len
@@ -945,6 +946,17 @@ def mapUpdatePairs : Node → List (Str × Raw) → Nat → StepR
     | .exc e => excOut r.node r.next e
     | _ => mapUpdatePairs r.node rest r.next
 
+/-- `update()`'s loop when the values may be Elements: `self[key] = value` for every pair -/
+def mapUpdateArgs : Node → List (Str × Arg) → Nat → StepR
+  | n, [], next => ⟨n, next, .ok, []⟩
+  | n, (k, a) :: rest, next =>
+    let r := mapSetItem n k a next
+    match r.out with
+    | .exc e => ⟨r.node, r.next, .exc e, r.detached⟩
+    | _ =>
+      let q := mapUpdateArgs r.node rest r.next
+      ⟨q.node, q.next, q.out, r.detached ++ q.detached⟩
+
 /-- `_reset()` on an existing mapping -/
 def mapReset (n : Node) (next : Nat) : Node × Nat :=
   if n.kind = .dict then
@@ -1005,6 +1017,7 @@ def mapStep (n : Node) (op : MapOp) (next : Nat) : StepR :=
          match r.out with
          | .exc e => excOut r.node r.next e
          | _ => mapUpdatePairs r.node kw r.next)
+  | .updateArgs kvs => mapUpdateArgs n kvs next
   | .ior raw =>
     (match toPairs raw with
      | none => excOut n next .unsupported
